@@ -4,11 +4,11 @@ package main
 // loops cut at headers, heaps versioned per block).
 
 import (
-	"hash/fnv"
 	"fmt"
 	"go/constant"
 	"go/token"
 	"go/types"
+	"hash/fnv"
 	"sort"
 	"strconv"
 	"strings"
@@ -155,7 +155,7 @@ type FnCtx struct {
 	funDecl     map[string]bool
 	pendingHWM  []string
 	hparent     map[string]heapParent // heap version made by a fresh-rows-only havoc -> previous version and the watermark then
-	hwm         map[string]string // heap version term -> watermark when that version was created
+	hwm         map[string]string     // heap version term -> watermark when that version was created
 	protected   []protCell
 	dbgUses     map[string][]ssa.Value
 	pfx         string // name prefix for inlined bodies
